@@ -34,7 +34,7 @@ CLAIMS["C10"] = claim("lean-model + harness seq",
 CLAIMS["C11"] = claim("lean-model + harness seq (hook-driven cycles and the real 1ms janitor)",
     "Lean 4 theorems: a cleanup cycle without limit breach removes exactly the entries expired longer than DeleteExpiredAfter "
     "(C11_cycle_exactly), lifted to any number of cycles (C11_cycles), and the scan-skip optimisation is sound along every history "
-    "of operations, cycles and restores (C11_scan_skip_sound, invariant by induction). Correspondence: generated histories on all "
+    "of operations, cycles and restores (C11_scan_skip_sound, invariant by induction); the scan counter never decreases, so a scan once on stays on (C11_scan_stays_enabled). Correspondence: generated histories on all "
     "three backends with synchronous cycles (verif hook) and with the real janitor goroutine.",
     "Janitor scheduling is modelled as 'a cycle happens'; real-janitor runs wait for the settled state (bounded 3 s).",
     "Lean 4 proof (invariant by induction over histories) + model/implementation correspondence", "DESIGN.md §6 C11")
@@ -82,7 +82,7 @@ CLAIMS["C15"] = claim("lean-model + harness inval",
     "Lean 4 proof (nested structural inductions over the control flow) + model/implementation correspondence", "DESIGN.md §6 C15")
 CLAIMS["C17"] = claim("lean-model + harness inval",
     "Lean 4 theorems: accept/reject rule, callbacks 0..n-1 exactly once in order, rejected calls change nothing, and over every schedule the "
-    "mutex allows consecutive accepted stamps are at least SkipInterval apart (C17_run_spacing, induction). Correspondence: real Invalidator, "
+    "mutex allows consecutive accepted stamps are at least SkipInterval apart (C17_run_spacing, induction); no spurious rejection (C17_accepted_when_elapsed, C17_rejected_only_within_interval). Correspondence: real Invalidator, "
     "sequential calls compared through clock brackets, concurrent callers checked by the block/overlap/spacing monitor.",
     "sync.Mutex provides mutual exclusion (trusted); the clock is an input.",
     "Lean 4 proof (induction over call sequences) + model/implementation correspondence", "DESIGN.md §6 C17")
